@@ -127,6 +127,53 @@ MUTATORS = {'append', 'extend', 'insert', 'pop', 'remove', 'clear', 'update', 'p
 VALUE_CLASSES = {'Transaction', 'Order', 'PortfolioEvent', 'Position', 'SimulationEvent', 'Equity', 'Cash'}
 
 
+def bound_callables(M):
+    """{D: expression} for fields that hold, by a class invariant, a callable BOUND from other fields of the same object:  self.D = self.X.method  or
+    self.D = functools.partial(self.X.method, self.A, ...)  - assigned only in that one form, D a field name of one class in the whole package, and every writer
+    of X/A re-binds D (lib.stale_derived_values reports the ones that do not; with a stale writer the invariant is void and D stays an opaque value).
+    Calling obj.D(args) is then calling obj.X.method(obj.A, ..., args)."""
+    if getattr(M, '_bound_callables', None) is not None:
+        return M._bound_callables
+    M._bound_callables = {}
+    from .lib import stale_writers
+    out = {}
+    all_fields, forms = {}, {}
+    for c in M.classes.values():
+        for m in c.methods.values():
+            for n in ast.walk(m.node):
+                if isinstance(n, ast.Attribute) and isinstance(n.ctx, ast.Store) and isinstance(n.value, ast.Name) and n.value.id == 'self':
+                    all_fields.setdefault(n.attr, set()).add(c.name)
+                if isinstance(n, ast.Assign) and len(n.targets) == 1 and isinstance(n.targets[0], ast.Attribute) and isinstance(n.targets[0].value, ast.Name) \
+                        and n.targets[0].value.id == 'self':
+                    forms.setdefault((c.name, n.targets[0].attr), []).append(n.value)
+
+    def chain(x, min_len=1):
+        k = 0
+        while isinstance(x, ast.Attribute):
+            x, k = x.value, k + 1
+        return isinstance(x, ast.Name) and x.id == 'self' and k >= min_len
+    for (cn, D), vals in forms.items():
+        c = M.cls(cn)
+        if c is None or all_fields.get(D) != {cn} or len({ast.unparse(v) for v in vals}) != 1:
+            continue
+        v = vals[0]
+        ok = chain(v, 2)
+        if not ok and isinstance(v, ast.Call) and ast.unparse(v.func).split('.')[-1] == 'partial' and v.args and chain(v.args[0], 2):
+            ok = all(chain(a, 1) or isinstance(a, ast.Constant) for a in v.args[1:]) and all(k.arg and (chain(k.value, 1) or isinstance(k.value, ast.Constant)) for k in v.keywords)
+        if not ok:
+            continue
+        if any(isinstance(n, ast.Attribute) and isinstance(n.ctx, ast.Store) and n.attr == D for fn in M.all_funcs() if fn.path != c.path for n in ast.walk(fn.node)):
+            continue
+        try:
+            if stale_writers(M, c, D):
+                continue
+        except Exception:
+            continue
+        out[D] = v
+    M._bound_callables = out
+    return out
+
+
 def derived_exprs(M):
     """{D: term over ('attr', ('var', '@obj'), A)} for stored figures that are, by a class invariant, a function of other fields of the same object:
     the constructor of a class stores its parameters unchanged in fields A.. and computes `self.D = f(...)` from them, D is assigned nowhere else except by
@@ -512,16 +559,29 @@ class SymEx:
         st0 = State()
         st0.env = {'self': self_term or ('var', 'self')} if is_meth else {}
         host = self.M.module_func(fn.mod)
-        self.frames.append(host)
-        try:
-            res = self.inline_decorated(fn, decs, bound, (self_term or ('var', 'self')) if is_meth else None, st0, fn.node)
-        finally:
-            self.frames.pop()
-        out = []
-        for s, v in res:
-            p = Path(s, 'raise', None) if s.exc is not None else Path(s, 'return', v)
-            p.local_env, p.outer_env = s.env, {}
-            out.append(p)
+        out, seen = [], set()
+        # callers may hand the arguments over by position or by keyword: a wrapper taking (*args, **kwargs) must treat both alike, so both are summarised
+        for conv in ('positional', 'keyword'):
+            self._kw_convention = conv == 'keyword'
+            self.frames.append(host)
+            try:
+                res = self.inline_decorated(fn, decs, bound, (self_term or ('var', 'self')) if is_meth else None, st0.copy(), fn.node)
+            except Undecided:
+                if conv == 'positional':
+                    raise
+                res = []
+            finally:
+                self.frames.pop()
+                self._kw_convention = False
+            for s, v in res:
+                p = Path(s, 'raise', None) if s.exc is not None else Path(s, 'return', v)
+                p.local_env, p.outer_env = s.env, {}
+                k_ = (p.outcome, T.tkey(v) if v is not None and s.exc is None else (s.exc[1:3] if s.exc else None), tuple((T.tkey(c), b_) for c, b_, _ in p.conds),
+                      tuple((T.tkey(e.loc), T.tkey(e.value) if e.value is not None else None, e.how) for e in p.flat_events() if e.kind == 'write'))
+                if k_ in seen:
+                    continue
+                seen.add(k_)
+                out.append(p)
         return out
 
     @property
@@ -2248,7 +2308,7 @@ class SymEx:
             pos_names = [p_ for p_ in callee.pos_params if not (callee.cls is not None and not callee.is_static and p_ in ('self', 'cls') and p_ == callee.pos_params[0])]
             pos = []
             for p_ in pos_names:
-                if p_ in bound:
+                if p_ in bound and not (getattr(self, '_kw_convention', False) and len(self.frames) <= 1):
                     pos.append(bound[p_])
                 else:
                     break
@@ -2378,6 +2438,25 @@ class SymEx:
                     if not hasattr(n, 'lineno'):
                         ast.copy_location(n, e)
                 return self.ev(g, st)
+        if isinstance(f, ast.Attribute) and not self.suppress and f.attr in bound_callables(self.M) and not (isinstance(f.value, ast.Name) and f.value.id == 'self'
+                                                                                                         and self.fn.cls is not None and self.fn.cls.lookup(f.attr) is not None):
+            # obj.D(args) with D a callable bound from obj's own fields (see bound_callables): call what it is bound to
+            bexpr = bound_callables(self.M)[f.attr]
+
+            class _Sub(ast.NodeTransformer):
+                def visit_Name(s_, n_):
+                    return ast.copy_location(f.value, n_) if n_.id == 'self' else n_
+            import copy as _copy
+            if isinstance(bexpr, ast.Call):
+                b2 = _Sub().visit(_copy.deepcopy(bexpr))
+                node = ast.Call(func=b2.args[0], args=list(b2.args[1:]) + list(e.args), keywords=list(b2.keywords) + list(e.keywords))
+            else:
+                node = ast.Call(func=_Sub().visit(_copy.deepcopy(bexpr)), args=list(e.args), keywords=list(e.keywords))
+            for n_ in ast.walk(node):
+                if not hasattr(n_, 'lineno'):
+                    ast.copy_location(n_, e)
+            ast.copy_location(node, e)
+            return self.call(node, st)
         # receiver / function value first, then arguments (Python evaluation order)
         out = []
         recv_states = [(st, None)]
@@ -2441,6 +2520,16 @@ class SymEx:
                 return out
         if is_nt_attr(recv, f):
             return self.nt_method(e, recv, f.attr, args, kwargs, st)
+        if isinstance(f, ast.Attribute) and f.attr in ('bind', 'bind_partial') and recv is not None and recv[0] == 'call' and recv[1] == ('ext', 'inspect.signature') \
+                and len(recv[2]) == 1 and recv[2][0][0] == 'fn' and not any(a_[0] == 'starred' for a_ in args) and all(k_ is not None for k_, _ in kwargs):
+            # inspect.signature(f).bind[_partial](*a, **kw): the arguments as f's parameters would receive them, name by name (read as its .arguments mapping)
+            tgt = self.M.funcs.get(recv[2][0][1]) or next((g_ for g_ in self.M.all_funcs() if g_.qn == recv[2][0][1]), None)
+            if tgt is not None and not tgt.node.args.vararg and len(args) <= len(tgt.pos_params):
+                items = [(('str', n_), a_) for n_, a_ in zip(tgt.pos_params, args)]
+                names = {n_ for (_, n_), _ in items}
+                if all(k_ in tgt.params and k_ not in names for k_, _ in kwargs):
+                    items += [(('str', k_), v_) for k_, v_ in kwargs]
+                    return [(st, ('new', 'inspect.BoundArguments', (('arguments', ('dict', tuple(items))),)))]
         if isinstance(f, ast.Attribute) and recv is not None and recv[0] == 'new' and f.attr in dict(recv[2]) and not self.suppress:
             # a field of a record that holds a function (member.apply = operator.iadd; rec.factory = SomeClass.create): call the value it holds
             fv = dict(recv[2])[f.attr]
